@@ -150,7 +150,9 @@ class FuzzyFinder(object):
     @staticmethod
     def _check_duplicate_attrs(attrs_list, attr):
         for i in attrs_list:
-            if attr[1][0] == i[1][0]:
+            # Only the same attribute of the same odML entity is a duplicate;
+            # e.g. Section name and Property name are different attributes.
+            if attr[0] == i[0] and attr[1][0] == i[1][0]:
                 return False
         return True
 
